@@ -301,18 +301,18 @@ var soloMu sync.RWMutex
 var hangs atomic.Int64
 
 // runTempl executes the CLI once. A run of these small trees takes well under a
-// second; one that exceeds 45 s is repeated alone with a 90 s budget, and only
+// second; one that exceeds 30 s is repeated alone with a 60 s budget, and only
 // if that also expires is it reported as timed out (the command hangs).
 func runTempl(bin, root, logDir string, cfg runCfg) runOut {
-	if hangs.Load() >= 2 {
-		// the command has already been shown to hang twice (each confirmed by a
+	if hangs.Load() >= 1 {
+		// the command has already been shown to hang (confirmed by a
 		// solo re-run): do not spend minutes on every further scenario
 		soloMu.RLock()
 		defer soloMu.RUnlock()
 		return runTemplOnce(bin, root, logDir, cfg, 10*time.Second)
 	}
 	soloMu.RLock()
-	ro := runTemplOnce(bin, root, logDir, cfg, 45*time.Second)
+	ro := runTemplOnce(bin, root, logDir, cfg, 30*time.Second)
 	soloMu.RUnlock()
 	if ro.timedOut {
 		defer func() {
@@ -321,7 +321,7 @@ func runTempl(bin, root, logDir string, cfg runCfg) runOut {
 			}
 		}()
 		soloMu.Lock()
-		ro = runTemplOnce(bin, root, logDir+"-solo", cfg, 90*time.Second)
+		ro = runTemplOnce(bin, root, logDir+"-solo", cfg, 60*time.Second)
 		soloMu.Unlock()
 	}
 	return ro
@@ -422,7 +422,7 @@ func (k *checker) scenario(id string, t treeSpec, cfg runCfg, report bool) (sig 
 	ro := runTempl(k.bin, root, filepath.Join(dir, "log1"), cfg)
 	if ro.timedOut {
 		// the blocked state is not created by load: the run was repeated alone
-		fs = append(fs, finding{"hang", fmt.Sprintf("templ generate did not terminate (45 s, then 90 s running alone) on a tree of %d files (%v); stderr tail: %s", len(t.Files), cfg, corpus.Tail(ro.stderr, 600))})
+		fs = append(fs, finding{"hang", fmt.Sprintf("templ generate did not terminate (30 s, then 60 s running alone) on a tree of %d files (%v); stderr tail: %s", len(t.Files), cfg, corpus.Tail(ro.stderr, 600))})
 		if report {
 			k.c.Eval(1)
 			k.c.Violate("hang", fs[len(fs)-1].msg, c15Case{Tree: t, Cfg: cfg})
@@ -460,7 +460,7 @@ func (k *checker) scenario(id string, t treeSpec, cfg runCfg, report bool) (sig 
 	// second run: contents of every file unchanged, same verdict
 	ro2 := runTempl(k.bin, root, filepath.Join(dir, "log2"), cfg)
 	if ro2.timedOut {
-		fs = append(fs, finding{"hang", "second templ generate run did not terminate (45 s, then 90 s running alone)"})
+		fs = append(fs, finding{"hang", "second templ generate run did not terminate (30 s, then 60 s running alone)"})
 		if report {
 			k.c.Eval(1)
 			k.c.Violate("hang", fs[len(fs)-1].msg, c15Case{Tree: t, Cfg: cfg})
